@@ -1323,3 +1323,72 @@ def c_scan_pos(repo):
     c = _first(fn, lambda n: isinstance(n, ast.Call) and isinstance(n.func, ast.Attribute) and 'init' in n.func.attr)
     c.args[1] = ast.Attribute(ast.Name('self', ast.Load()), 'position', ast.Load())
     return {'utils': src(t)}
+
+
+@control(['C18'], 'insert-index-lower-clamp-dropped', ['R18.j'], 'shift a negative insert index by the length without clamping it at 0')
+def c_insert_clamp(repo):
+    t = parse(repo, 'data')
+    fn = find_func(t, 'insert', cls='TexArgs')
+    for n in ast.walk(fn):
+        if isinstance(n, ast.Call) and isinstance(n.func, ast.Name) and n.func.id == 'max' and len(n.args) == 2 \
+                and isinstance(n.args[1], ast.Constant) and n.args[1].value == 0:
+            for p in ast.walk(fn):
+                for fld, val in ast.iter_fields(p):
+                    if val is n:
+                        setattr(p, fld, n.args[0])
+                        return {'data': src(t)}
+    raise NotApplicable('max(.., 0) in TexArgs.insert')
+
+
+@control(['C18', 'C15'], 'group-parser-strips-delimiter-characters', ['R18.i'], 'cut the content out of a coerced string with lstrip/rstrip')
+def c_parse_strip(repo):
+    t = parse(repo, 'data')
+    fn = find_func(t, 'parse', cls='TexGroup')
+    for n in ast.walk(fn):
+        if isinstance(n, ast.Subscript) and isinstance(n.slice, ast.Slice) and isinstance(n.value, ast.Name):
+            new = ast.parse('%s.lstrip(arg.begin).rstrip(arg.end)' % n.value.id, mode='eval').body
+            for p in ast.walk(fn):
+                for fld, val in ast.iter_fields(p):
+                    if val is n:
+                        setattr(p, fld, new)
+                        return {'data': src(t)}
+                    if isinstance(val, list) and any(v is n for v in val):
+                        val[[i for i, v in enumerate(val) if v is n][0]] = new
+                        return {'data': src(t)}
+    raise NotApplicable('slice in TexGroup.parse')
+
+
+@control(['C13', 'C19'], 'token-copy-prefers-truthy-position', ['R13.i', 'R13.b'], 'copy the position of a wrapped token only when it is truthy')
+def c_token_pos_or(repo):
+    t = parse(repo, 'utils')
+    fn = find_func(t, '__new__', cls='Token')
+    for n in ast.walk(fn):
+        if isinstance(n, ast.Assign) and isinstance(n.targets[0], ast.Attribute) and n.targets[0].attr == 'position' \
+                and isinstance(n.value, ast.Attribute) and n.value.attr == 'position':
+            n.value = ast.BoolOp(ast.Or(), [n.value, ast.Name('position', ast.Load())])
+            return {'utils': src(t)}
+    raise NotApplicable('position copy in Token.__new__')
+
+
+@control(['C03'], 'empty-name-matches-everything', ['R03.c'], 'skip the name tests of the match predicate when the name is falsy')
+def c_match_skips_name(repo):
+    t = parse(repo, 'data')
+    fn = find_func(t, '__match__', cls='TexExpr')
+    body = [s for s in fn.body if not (isinstance(s, ast.Expr) and isinstance(s.value, ast.Constant))]
+    first_if = [s for s in body if isinstance(s, ast.If)]
+    if not first_if:
+        raise NotApplicable('if chain in __match__')
+    i0 = fn.body.index(first_if[0])
+    # wrap every statement up to (excluding) the attribute loop into `if name:`
+    loop = [s for s in fn.body if isinstance(s, ast.For)]
+    if not loop:
+        raise NotApplicable('attribute loop in __match__')
+    j0 = fn.body.index(loop[0])
+    guarded = fn.body[i0:j0]
+    if any(isinstance(x, ast.Return) and not isinstance(getattr(x, 'value', None), ast.Constant) for s in guarded for x in ast.walk(s)):
+        # returns of the full-expression query stay inside the guard: fine
+        pass
+    name_p = fn.args.args[1].arg
+    fn.body[i0:j0] = [ast.If(ast.Name(name_p, ast.Load()), guarded, [])]
+    ast.fix_missing_locations(t)
+    return {'data': src(t)}
